@@ -477,6 +477,7 @@ func (m SmallMap) Delete(key Object) (Map, bool) {
 		m.smallKV[i] = m.smallKV[i+1]
 	}
 	m.len--
+	m.smallKV[m.len] = keyValuePair{} // don't keep the removed pair: a SmallMap is compared and hashed as a whole (cache keys).
 	return m, true
 }
 
